@@ -55,6 +55,18 @@ CHECKS["C12"] = (
     "DESIGN.md §3 C12",
 )
 
+CHECKS["C18"] = (
+    "exploration",
+    "two-variable (target, local override) reference model run in lock-step with real Alias/DeprecatedAlias descriptors over exhaustively enumerated operation sequences",
+    "All 160 configurations (Alias/DeprecatedAlias x passthrough x transform x fallback x 5 path shapes x plain/spec host) x all "
+    "sequences of length 3 (quick) / 4 (thorough) over read/write/delete of alias and target, deepcopy and (spec hosts) "
+    "with_al/reset_al/target helpers/ill-typed writes are executed on fresh real instances; after every operation alias and target "
+    "reads are compared with the model, fallback reads must be fresh copies, superseded originals are re-checked at the end "
+    "(helpers act on the copy only) and DeprecatedAlias must warn on each alias access. Random longer sequences on top.",
+    "Trusted: the model in checks/c18.py. Not judged: AttributeError vs KeyError for a missing item-path target; exactly-one warning on spec hosts (counted).",
+    "DESIGN.md §3 C18",
+)
+
 NOT_YET = {}
 
 
